@@ -50,6 +50,63 @@ proof fn lemma_jac_prefix(rword: &WordView, qword: &WordView)
     }
     lemma_jac_gate_superset(a, b, x);
 }
+// ---- C04 (word level): a record word of >= 5 characters, three of them different, and a query word that is one edit away from it
+// (substitution, insertion, deletion, adjacent transposition) are a pair that word_match cannot refuse: within one edit (DL-edit1,
+// dl/laws.rs) and through the Jaccard gate (lemma_jac_gate_near, jaccard/laws.rs)
+pub open spec fn three_letters(w: Seq<char>) -> bool {
+    exists|i: int, j: int, k: int| 0 <= i < w.len() && 0 <= j < w.len() && 0 <= k < w.len() && #[trigger] w[i] != #[trigger] w[j] && w[i] != #[trigger] w[k] && w[j] != w[k]
+}
+// the Jaccard gate: the character sets differ by at most one member each way
+proof fn lemma_jac_edit1(rword: &WordView, qword: &WordView, x: char, z: char)
+    requires rword.wfs(), qword.wfs(), rword.small(), qword.small(), qword.vlen() + 1 >= rword.vlen(), three_letters(rword.vchars()),
+        forall|y: char| rword.vchars().contains(y) ==> qword.vchars().contains(y) || y == x,
+        forall|y: char| qword.vchars().contains(y) ==> rword.vchars().contains(y) || y == z,
+    ensures jac_passes(rword, qword)
+{
+    let a = jac_arg(rword, qword); let r = rword.vchars();
+    assert(a =~= r);
+    let (i, j, k) = choose|i: int, j: int, k: int| 0 <= i < r.len() && 0 <= j < r.len() && 0 <= k < r.len() && #[trigger] r[i] != #[trigger] r[j] && r[i] != #[trigger] r[k] && r[j] != r[k];
+    assert(r.contains(r[i]) && r.contains(r[j]) && r.contains(r[k]));
+    lemma_jac_gate_near(a, qword.vchars(), x, z, r[i], r[j], r[k]);
+}
+// the four kinds of edit, r = record word characters, q = query word characters
+pub open spec fn is_sub(r: Seq<char>, q: Seq<char>, p: int) -> bool { 0 <= p < r.len() && r.len() == q.len() && forall|t: int| 0 <= t < r.len() && t != p ==> r[t] == q[t] }
+pub open spec fn is_ins(r: Seq<char>, q: Seq<char>, p: int) -> bool { 0 <= p <= r.len() && q.len() == r.len() + 1 && (forall|t: int| 0 <= t < p ==> r[t] == q[t]) && (forall|t: int| p <= t < r.len() ==> r[t] == q[t + 1]) }
+pub open spec fn is_del(r: Seq<char>, q: Seq<char>, p: int) -> bool { is_ins(q, r, p) }
+pub open spec fn is_trans(r: Seq<char>, q: Seq<char>, p: int) -> bool {
+    0 <= p && p + 1 < r.len() && r.len() == q.len() && r[p] == q[p + 1] && r[p + 1] == q[p] && r[p] != r[p + 1] && forall|t: int| 0 <= t < r.len() && t != p && t != p + 1 ==> r[t] == q[t]
+}
+proof fn lemma_c04_word(rword: &WordView, qword: &WordView, p: int)
+    requires rword.wfs(), qword.wfs(), rword.small(), qword.small(), !qword.fin, rword.vlen() >= 5, three_letters(rword.vchars()),
+        is_sub(rword.vchars(), qword.vchars(), p) || is_ins(rword.vchars(), qword.vchars(), p) || is_del(rword.vchars(), qword.vchars(), p) || is_trans(rword.vchars(), qword.vchars(), p),
+    ensures edit1_case(rword, qword), jac_passes(rword, qword)
+{
+    let r = rword.vchars(); let q = qword.vchars(); let rk = rword.vclasses(); let qk = qword.vclasses();
+    if is_sub(r, q, p) {
+        lemma_edit1_sub(q, qk, r, rk, p, q.len() as int);
+        assert forall|y: char| r.contains(y) implies q.contains(y) || y == r[p] by { let t = choose|t: int| 0 <= t < r.len() && r[t] == y; if t != p { assert(q[t] == y); } }
+        assert forall|y: char| q.contains(y) implies r.contains(y) || y == q[p] by { let t = choose|t: int| 0 <= t < q.len() && q[t] == y; if t != p { assert(r[t] == y); } }
+        lemma_jac_edit1(rword, qword, r[p], q[p]);
+    } else if is_ins(r, q, p) {
+        // the query has one more character: deleting it from the query gives the record word
+        lemma_edit1_del(q, qk, r, rk, p);
+        assert forall|y: char| r.contains(y) implies q.contains(y) || y == r[0] by { let t = choose|t: int| 0 <= t < r.len() && r[t] == y; if t < p { assert(q[t] == y); } else { assert(q[t + 1] == y); } }
+        assert forall|y: char| q.contains(y) implies r.contains(y) || y == q[p] by { let t = choose|t: int| 0 <= t < q.len() && q[t] == y; if t < p { assert(r[t] == y); } else if t > p { assert(r[t - 1] == y); } }
+        lemma_jac_edit1(rword, qword, r[0], q[p]);
+    } else if is_del(r, q, p) {
+        lemma_edit1_ins(q, qk, r, rk, p, q.len() as int);
+        assert forall|y: char| q.contains(y) implies r.contains(y) || y == q[0] by { let t = choose|t: int| 0 <= t < q.len() && q[t] == y; if t < p { assert(r[t] == y); } else { assert(r[t + 1] == y); } }
+        assert forall|y: char| r.contains(y) implies q.contains(y) || y == r[p] by { let t = choose|t: int| 0 <= t < r.len() && r[t] == y; if t < p { assert(q[t] == y); } else if t > p { assert(q[t - 1] == y); } }
+        lemma_jac_edit1(rword, qword, r[p], q[0]);
+    } else {
+        assert(is_trans(r, q, p));
+        assert(q[p] != q[p + 1]);
+        lemma_edit1_trans(q, qk, r, rk, p, q.len() as int);
+        assert forall|y: char| r.contains(y) implies q.contains(y) || y == r[0] by { let t = choose|t: int| 0 <= t < r.len() && r[t] == y; if t == p { assert(q[p + 1] == y); } else if t == p + 1 { assert(q[p] == y); } else { assert(q[t] == y); } }
+        assert forall|y: char| q.contains(y) implies r.contains(y) || y == q[0] by { let t = choose|t: int| 0 <= t < q.len() && q[t] == y; if t == p { assert(r[p + 1] == y); } else if t == p + 1 { assert(r[p] == y); } else { assert(r[t] == y); } }
+        lemma_jac_edit1(rword, qword, r[0], q[0]);
+    }
+}
 pub open spec fn good(best: Option<(WordMatch, WordMatch)>) -> bool { best matches Some(p) && is_h(p.0.typos) && hv(p.0.typos) == 0 }
 pub open spec fn good_full(best: Option<(WordMatch, WordMatch)>, n: int) -> bool { good(best) && (best matches Some(p) && p.0.subslice.1 == n && p.1.subslice.1 == n) }
 // ---- soundness contract of word_match, one predicate per clause so that a failed clause names the property it serves
